@@ -366,7 +366,10 @@ def _fit_check(cfg):
                 np.max(np.abs(np.asarray(isolist.y0)[good] - y0)) > 0.05:
             return (f'centre not recovered: x0 '
                     f'{np.asarray(isolist.x0)[good]} vs {x0}')
-    if cfg['fix'] not in ('eps', 'pa'):
+    # (with the centre held fixed *off* the true centre the isophotes are not
+    # centred ellipses of the fitted family: no recovery claim for eps / pa)
+    if cfg['fix'] not in ('eps', 'pa') and not (
+            cfg['fix'] == 'center' and cfg['dx'] != 0):
         if np.max(np.abs(np.asarray(isolist.eps)[good] - cfg['eps'])) > 0.02:
             return f'eps not recovered: {np.asarray(isolist.eps)[good]}'
         dpa = np.abs(((np.asarray(isolist.pa)[good] - cfg['pa'])
